@@ -282,3 +282,93 @@ def _wrap3(res, e, rs, what):
         if r.kind in ('panic', 'oob', 'unreachable', 'ub', 'diverge', 'depth'):
             res.fail(f'C03.K1:{what}:{r.kind}', f'{what}: path ends in {r.kind}: {str(r.info)[:200]}', {'path': str(r.info)})
     summarize_paths(res, e, rs, lambda r: r.info if isinstance(r.info, dict) else None, key_prefix=f'C03.K1:{what}:', unwind_ok=False)
+
+
+@obligation('C03.K3.trailer_self_flag', 'C03', programs=('vm',))
+def k3_trailer_self(res, tier):
+    """Compiler::apply_trailers(is_self, trailers) for every sequence of up to 3 trailers (call / index / access in any order): a field
+    access is compiled as an access on `self` (which allows the fixed slot of the enclosing class) only when it is the FIRST trailer
+    and the primary it is applied to is `self`; after any trailer the receiver is some other object"""
+    P = get_program('vm')
+    e = Engine(P, loop_bound=6, timeout_s=120, max_depth=40)
+    CW = CompilerWorld(e, P)
+    f = P.lookup('compiler::Compiler::apply_trailers')
+    res.bounds = {'trailers': '0..3, every variant at every position'}
+
+    def rec(kind):
+        def mdl(e_, a, c):
+            e_.path_state.setdefault('trailer_events', []).append((kind, a[2] if kind == 'access' else None))
+            return UNIT
+        return mdl
+    e.model(r'^(compiler::)?Compiler::call$', rec('call'))
+    e.model(r'^(compiler::)?Compiler::index$', rec('index'))
+    e.model(r'^(compiler::)?Compiler::access$', rec('access'))
+
+    def path(e):
+        c = CW.fresh_compiler(e)
+        nv = z3.BitVec('n_trailers', 64)
+        e.add_constraint(z3.ULE(nv, 3))
+        n = e.concretize(nv, [0, 1, 2, 3])
+        trailers = ConcSeq('compiler::ir::ast::Trailer', [Cell(e.fresh('compiler::ir::ast::Trailer', f'trailer{k}')) for k in range(n)])
+        is_self0 = e.fork_bool(z3.Bool('primary_is_self'))
+        e.call(f, [Ref(Cell(c)), is_self0, SliceRef(trailers, bv(0, 64), bv(n, 64))])
+        ev = e.path_state.get('trailer_events', [])
+        e.check(len(ev) == n, 'apply_trailers: one lowering call per trailer')
+        for k, (kind, flag) in enumerate(ev):
+            if kind != 'access':
+                continue
+            fl = flag if isinstance(flag, bool) else e.is_valid(to_z3_bool(flag))
+            want = bool(is_self0) and k == 0
+            e.check(fl == want, 'apply_trailers: only the first trailer, and only on a `self` primary, is an access on self (a later access applies to whatever the earlier trailers produced)',
+                    {'position': k, 'primary_is_self': bool(is_self0), 'passed_is_self': fl, 'trailers': [x[0] for x in ev]})
+        return {'trailers': [x[0] for x in ev], 'primary_is_self': bool(is_self0)}
+    results = e.explore(path)
+    for r in results:
+        if r.kind in ('panic', 'oob', 'unreachable', 'ub', 'diverge', 'depth'):
+            res.fail(f'C03.K3:apply_trailers:{r.kind}', f'apply_trailers: path ends in {r.kind}: {str(r.info)[:200]}', {'path': str(r.info)})
+    summarize_paths(res, e, results, lambda r: r.info if isinstance(r.info, dict) else None, key_prefix='C03.K3:apply_trailers:', unwind_ok=False)
+
+
+F49_SRC = 'class A {}\nlet a = A();\ntry { a.nope; } catch e: PropertyError { print("property"); } catch e: Error { print("other"); }\ntry { a.nope(1); } catch e: PropertyError { print("property"); } catch e: Error { print("other"); }\n'
+F49_REPLAY = dict(kind='lay', source=F49_SRC, expect_stdout='property\nproperty\n')
+
+
+@obligation('C03.K2.undeclared_property_error', 'C03', programs=('vm',))
+def k2_undeclared(res, tier):
+    """Vm::bind_method (the tail of every property read that found no field: obj.x, obj.x(args), super.x, Cls.x) for a class that has
+    no method of that name: the error raised is the PropertyError of the built-ins, as for the fused invoke and for property writes"""
+    from .c01 import END_KINDS
+    P = get_program('vm')
+    e = Engine(P, loop_bound=4, timeout_s=120, max_depth=40)
+    W = VmWorld(e, P)
+    W.havoc_objects(e)
+    f = P.lookup('vm::Vm::bind_method')
+    prop_key = W.field_key('vm::Vm', ['builtin', 'errors', 'property']) + '.id'
+    res.bounds = {'class': 'any', 'name': 'any'}
+    ed_opt = P.enum_def('Option')
+    e.model(r'^(laythe_core::)?(object::)?(class::)?Class::get_method$', lambda e_, a, c: EnumV(norm_ty(c.dest_ty) if c.dest_ty else 'Option<Value>', 0, None, None, ed_opt))
+
+    def path(e):
+        st = W.fresh_state(e)
+        cls = AbsObj(z3.BitVec('the_class', 64), 'ObjRef<Class>')
+        name = AbsObj(z3.BitVec('the_name', 64), 'LyStr')
+        outcome = None
+        try:
+            e.call(f, [Ref(st.vm_cell), cls, name])
+        except PathEnd as pe:
+            if pe.kind not in END_KINDS:
+                raise
+            outcome = e.path_state.get('outcome')
+        e.check(outcome is not None and outcome[0] == 'runtime_error' and outcome[1] == prop_key,
+                'bind_method: an undeclared property read raises the PropertyError class', {'raised': str(outcome)[:120]})
+        return {'raised': str(outcome)[:80]}
+    results = e.explore(path)
+    for r in results:
+        for lab, ok, info in list(r.checks):
+            if not ok:
+                res.fail('C03.K2:undeclared property read raises RuntimeError', 'Vm::bind_method raises errors.runtime where every other undeclared-property path raises errors.property: '
+                         'catch e: PropertyError does not see obj.nope / obj.nope(1) / super.nope / Cls.nope', info, replay=F49_REPLAY)
+                r.checks.remove((lab, ok, info))
+        if r.kind in ('panic', 'oob', 'unreachable', 'ub', 'diverge', 'depth'):
+            res.fail(f'C03.K2:bind_method:{r.kind}', f'bind_method: path ends in {r.kind}: {str(r.info)[:200]}', {'path': str(r.info)})
+    summarize_paths(res, e, results, lambda r: r.info if isinstance(r.info, dict) else None, key_prefix='C03.K2:bind_method:', unwind_ok=False)
